@@ -165,16 +165,19 @@ class Runner:
         per = max(1, cases // shards)
         budget = t.get("wall", 600)
         procs = []
-        for i in range(shards):
-            wd = os.path.join(self.work, f"s{i}"); os.makedirs(wd)
-            env = dict(self.env); env["RC_PARAMS"] = f"seed={self.seed * 100003 + i * 7919 + 1} max_success={per} max_size={size} max_discard_ratio=50"
+        def launch(i, attempt, count):
+            wd = os.path.join(self.work, f"s{i}" + (f"r{attempt}" if attempt else "")); os.makedirs(wd)
+            env = dict(self.env); env["RC_PARAMS"] = f"seed={self.seed * 100003 + i * 7919 + attempt * 104729 + 1} max_success={count} max_size={size} max_discard_ratio=50"
             a = self.drive_args(["--mode", "rc", "--out", f"{wd}/stats.json", "--journal", f"{wd}/cur.case", "--failout", f"{wd}/fail.case", "--workdir", wd,
                                  "--budget", str(t.get("case_budget", 20))])
             log = open(f"{wd}/log", "w")
-            procs.append((i, wd, subprocess.Popen(a, env=env, stdout=log, stderr=subprocess.STDOUT, preexec_fn=os.setsid)))
+            return [i, wd, subprocess.Popen(a, env=env, stdout=log, stderr=subprocess.STDOUT, preexec_fn=os.setsid), attempt, count]
+        for i in range(shards): procs.append(launch(i, 0, per))
         deadline = time.time() + budget
         stats = []
-        for i, wd, p in procs:
+        qi = 0
+        while qi < len(procs):
+            i, wd, p, attempt, count = procs[qi]; qi += 1
             try:
                 rc = p.wait(timeout=max(1, deadline - time.time()))
             except subprocess.TimeoutExpired:
@@ -185,6 +188,17 @@ class Runner:
                 try: stats.append(json.load(open(sp)))
                 except Exception as ex: self.notes.append(f"shard {i}: unreadable stats ({ex})")
             if rc in (0, None): continue
+            if rc == 97 and not self.cfg.get("hang_is_violation"):
+                # a case exceeded its time budget: inconclusive, keep the case and continue the shard with the remaining quota
+                done = 0
+                try: done = json.load(open(sp))["evaluations"]
+                except Exception: pass
+                keep = os.path.join(VERIF, "evidence", "replays"); os.makedirs(keep, exist_ok=True)
+                data = open(f"{wd}/cur.case", "rb").read() if os.path.exists(f"{wd}/cur.case") else b""
+                kp = os.path.join(keep, f"{self.pid}-slow-{hashlib.sha1(data).hexdigest()[:10]}.case"); open(kp, "wb").write(data)
+                self.notes.append(f"INCONCLUSIVE: shard {i} case exceeded its time budget ({kp}); not a violation")
+                if attempt < 6 and count - done > 10 and time.time() < deadline - 5: procs.append(launch(i, attempt + 1, count - done))
+                continue
             if rc == 1 and os.path.exists(f"{wd}/fail.case"):
                 data = open(f"{wd}/fail.case", "rb").read()
                 self.confirm_and_record(data, "fail", "", f"shard{i}")
